@@ -83,7 +83,12 @@ def install():
         pos = _orig_opt(self, time_limit_seconds)
         if dev is None:
             return pos
-        return layout_answer(self, dict(pos), dev)
+        try:
+            return layout_answer(self, dict(pos), dev)
+        except HarnessError:
+            raise
+        except Exception as ex:
+            raise HarnessError(f"layout-answer seam failed for {dev}: {type(ex).__name__}: {ex}")
 
     ILS.IntegerLayoutEngine.optimize = optimize
 
@@ -168,17 +173,28 @@ def layout_answer(engine, pos, dev):
     free = [e for e in pos if e not in fixed]
     if not free:
         return pos
-    if fixed and kind in ("stretch-x", "stretch-y", "mirror-x", "lower-out"):
-        # with fixed entities a global transformation may collide with them; shift instead
-        # the whole free group far away along x (keeps relative geometry => no overlap among
-        # free ones; beyond the fixed ones' bounding box => no overlap with them).
-        k = dev[1]
-        fx = max(engine.fixed_positions[e][0] + engine.footprints.get(e, (1, 1))[0] for e in fixed)
-        minx = min(pos[e][0] for e in free)
-        shift = max(0, fx + 1 - minx) + 3 * k
-        for e in free:
-            pos[e] = (pos[e][0] + shift, pos[e][1])
-        return pos
+    if fixed:
+        # a transformation of the free entities may collide with fixed ones (user entities, power
+        # poles): apply it, and if any free entity then overlaps a fixed one, move that free entity
+        # to the right of everything instead (still a feasible answer of the hard constraints).
+        moved = layout_answer_free(engine, dict(pos), dev, free, role)
+        rects = {e: (engine.fixed_positions[e][0], engine.fixed_positions[e][1]) + tuple(engine.footprints.get(e, (1, 1)))
+                 for e in fixed if e in engine.fixed_positions}
+        right = max([x + w for (x, y, w, h) in rects.values()] +
+                    [moved[e][0] + engine.footprints.get(e, (1, 1))[0] for e in free]) + 1
+        for e in sorted(free):
+            x, y = moved[e]
+            w, h = engine.footprints.get(e, (1, 1))
+            if any(x < fx + fw and fx < x + w and y < fy + fh and fy < y + h for (fx, fy, fw, fh) in rects.values()):
+                moved[e] = (right, y)
+                right += w + 1
+        return moved
+    return layout_answer_free(engine, pos, dev, free, role)
+
+
+def layout_answer_free(engine, pos, dev, free, role):
+    kind = dev[0]
+    fixed = ()
     if kind == "stretch-x":
         k = dev[1]
         for e in free:
